@@ -321,6 +321,7 @@ func init() {
 		if tier == "thorough" {
 			js = append(js, syncJobs("c07", "ZZ_C07_Sync", []seqCfg{{"bs_max1.s2", 0, 0, 1, 1}, {"bs_max2.s2", 0, 0, 1, 2}}, 2)...)
 		}
+		js = append(js, policyJobs("c07", tier)...)
 		c := syncJobs("c07", "ZZ_C07_Sync", []seqCfg{{"canary", 0, 0, 1, 1}}, 1, "canary", 1)[0]
 		c.Canary = "c07.canary"
 		return append(js, c)
@@ -787,6 +788,7 @@ func init() {
 					}
 				}
 			}
+			js = append(js, policyJobs(prop, tier)...)
 			c := mk(prop+".canary", rootPkg, fn, with(cfgParams(0, 0, 1, 2, 0, 0), "steps", 1, "canary", 1), func(b *Bounds) { b.Unwind = 70 })
 			c.Canary = prop + ".canary"
 			return append(js, c)
@@ -806,6 +808,27 @@ func init() {
 		}
 		return js
 	}
+}
+
+// policyJobs: the inductive policy-level step shared by C04, C05 and C07.
+func policyJobs(prop, tier string) []*Job {
+	var js []*Job
+	type pc struct{ nodes, max, sym int }
+	// quick: two nodes, only in C05's check (45 s); thorough: two and three nodes, symbolic sketch, in all three
+	var pcs []pc
+	if tier == "thorough" {
+		pcs = []pc{{2, 10, 0}, {3, 10, 0}, {2, 3, 1}}
+	} else if prop == "c05" {
+		pcs = []pc{{2, 10, 0}}
+	}
+	for _, x := range pcs {
+		j := mk(sprintf("%s.policy_step.n%d.max%d.symsketch%d", prop, x.nodes, x.max, x.sym), rootPkg, "ZZ_Policy_Step",
+			map[string]int{"nodes": x.nodes, "max": x.max, "symsketch": x.sym, "canary": 0},
+			func(b *Bounds) { b.Unwind = 40; b.MaxPaths = 3000000; b.MaxWallS = 2400 })
+		j.Prefer = "bits"
+		js = append(js, j)
+	}
+	return js
 }
 
 func sprintf(f string, a ...interface{}) string { return fmt.Sprintf(f, a...) }
